@@ -188,16 +188,22 @@ def beforeStart (start : Option Key) (incS : Bool) (k : Key) : Bool :=
   | some s => k < s || (k = s && !incS)
   | none => false
 
-/-- the loop body of `range_scan` over the chained entries -/
-def scanLoop (start stop : Option Key) (incS incE : Bool) : Bool → List Entry → List RowId
+/-- the loop of `range_scan_entries` over the chained entries: the entries (key with its row ids)
+    whose key is in the range -/
+def scanLoopE (start stop : Option Key) (incS incE : Bool) : Bool → List Entry → List Entry
   | _, [] => []
   | started, (k, rs) :: t =>
     if pastStop stop incE k then []
-    else if !started && beforeStart start incS k then scanLoop start stop incS incE false t
-    else rs ++ scanLoop start stop incS incE true t
+    else if !started && beforeStart start incS k then scanLoopE start stop incS incE false t
+    else (k, rs) :: scanLoopE start stop incS incE true t
 
+/-- `BTreeIndex::range_scan_entries` -/
+def rangeScanEntries (t : BTree) (start stop : Option Key) (incS incE : Bool) : Except Err (List Entry) :=
+  (chainFrom t.h t.root start).map (scanLoopE start stop incS incE start.isNone)
+
+/-- `BTreeIndex::range_scan`: the row ids of `range_scan_entries` -/
 def rangeScan (t : BTree) (start stop : Option Key) (incS incE : Bool) : Except Err (List RowId) :=
-  (chainFrom t.h t.root start).map (scanLoop start stop incS incE start.isNone)
+  (rangeScanEntries t start stop incS incE).map (fun es => es.flatMap (·.2))
 
 /-! ## Insert (insert.rs, split_merge.rs) -/
 
